@@ -58,6 +58,11 @@ func c12Value(g *gen.G, d *ref.PropDef) drv.Op {
 	case ref.KU32:
 		if !zero {
 			o.N = g.U32()
+			if t.Bool(1, 6) {
+				// a limit of the protocol or of the type, give or take the few bytes of a header
+				base := []uint32{268435455, 65535, 2097151, 16383, 1<<32 - 7, 1 << 24, 1 << 31}[t.Int(7)]
+				o.N = base + uint32(t.Int(9)) - 2
+			}
 		}
 	case ref.KUTF8:
 		o.B = []byte{}
